@@ -67,6 +67,10 @@ def groupedMean (arr : List Int) (sc : List Nat) : Option (List (Int × Nat)) :=
   let sums := addAt (List.replicate cids.length 0) reln arr
   pure (sums.zip counts)
 
+/-- `grouped_mean(arr, sc)` as the array of quotients `t / spike_counts` (array.py:387), exact -/
+def groupedMeanQ (arr : List Int) (sc : List Nat) : Option (List Rat) :=
+  (groupedMean arr sc).map fun l => l.map fun p => (p.1 : Rat) / (p.2 : Rat)
+
 /-- `get_template_counts(cluster)` = `bincount(spike_templates[get_cluster_spikes(c)], minlength=nt)` -/
 def templateCounts (sc st : List Nat) (nt : Nat) (c : Nat) : List Nat :=
   let sp := spikesInClusters sc [c]
